@@ -2455,6 +2455,11 @@ namespace bloch::runtime {
                         v.type = Value::Type::CharArray;
                     else if (elem->name == "qubit")
                         v.type = Value::Type::QubitArray;
+                } else if (m_currentClassCtx && !m_currentClassCtx->typeParamNames.empty() &&
+                           dynamic_cast<NamedType*>(arr->elementType.get()) &&
+                           declaredTypeHere(arr->elementType.get()).kind == Value::Type::Qubit) {
+                    // elements declared through a type parameter bound to qubit
+                    v.type = Value::Type::QubitArray;
                 }
                 if (arr->size < 0 && arr->sizeExpression) {
                     Value sizeVal = eval(arr->sizeExpression.get());
